@@ -118,6 +118,10 @@ CLAIMS["C14"] = ("exploration",
     "stateful PBT with the cancel event placed as a program step, inside concurrent phases, and fired from inside the library's own hook points (mid render cycle, mid width exchange, at a bar's exit) at generated occurrences; all refresh modes, render delay, listeners under wrapper stacks (also combined with EWMA); oracle: hang verdict for Wait, exactly-once counts for every listener at Wait and after settling, exactly one duplicate-free notifier value (exact set for clocked runs), stopped bars with the right terminal state",
     "the notifier set is compared exactly only where the frame model applies; schedules inside a perturbation window are sampled",
     "property-based testing (rapid) with fault/cancel placement at instrumented points and exactly-once history invariants")
+CLAIMS["C15"] = ("fault_enumeration",
+    "fault injection over every render-error site (k-th Fill, k-th extender call, k-th output Write as error or short write, k-th terminal-size query) with small k covered many times per site kind and larger k at random, crossed with generated layouts of synchronised decorators, slow decorators and directed holds between width exchange and flush, three refresh regimes; oracle: hang verdict for Wait, the injected error exactly once in the debug output and nothing else, no output after the failing cycle, all bars stopped, late calls see a finished container",
+    "fault sites and k are covered by generator weighting rather than a nested loop; schedules inside a perturbation window are sampled",
+    "property-based fault injection (rapid) with a hang oracle and exactly-once error accounting")
 CLAIMS["C19"] = ("exploration",
     "differential PBT: scripted underlying readers/writers of all four dynamic types consumed through the proxy and bare by the same generated consumer; caller-visible results, underlying-visible calls, delivered bytes, Close counts, fast-path offer, bar accounting and moving-average samples compared",
     "the bare twin plays the same script; sample durations are bounded from below only",
